@@ -10,6 +10,10 @@ pub fn build(family: &str, rng: &mut Rng, index: u64) -> Option<Plan> {
 		"smoke" => Some(simple_plan(rng, 1 + (index % 2) as usize)),
 		"F2p" => f2p(index),
 		"F2n" => f2n(index),
+		"F2" => f2(index),
+		"F4" => Some(f4(rng, index)),
+		"F3" => Some(f3(rng, index)),
+		"F3m" => Some(f3m(rng, index)),
 		_ => None,
 	}
 }
@@ -230,4 +234,198 @@ fn f2n(index: u64) -> Option<Plan> {
 	}];
 	p.note = format!("F2n phase {} stays non-final for {} polls", g[0], n);
 	Some(p)
+}
+
+/// every network/CA fault kind of the catalogue (DESIGN.md section 5)
+pub fn net_fault_kinds() -> Vec<FaultKind> {
+	let mut v = error_kinds();
+	v.push(FaultKind::Http {
+		status: 200,
+		body: "{\"type\":\"urn:ietf:params:acme:error:serverInternal\",\"detail\":\"problem document on a 2xx\",\"status\":500}".into(),
+		content_type: "application/problem+json".into(),
+	});
+	v.push(FaultKind::Refuse);
+	v.push(FaultKind::ResetAfter);
+	v.push(FaultKind::Delay { ms: 90_000 });
+	v.push(FaultKind::DropHeader { name: "Location".into() });
+	v.push(FaultKind::DropHeader { name: "Replay-Nonce".into() });
+	v.push(FaultKind::BadNonceHeader);
+	v.push(FaultKind::NotJson);
+	for f in ["status", "authorizations", "finalize", "identifier", "identifiers", "challenges", "certificate", "newNonce", "newAccount", "newOrder", "keyChange", "orders"].iter() {
+		v.push(FaultKind::DropField { name: f.to_string() });
+	}
+	for (f, val) in [
+		("status", serde_json::json!("bogus")),
+		("status", serde_json::json!("invalid")),
+		("status", serde_json::json!("deactivated")),
+		("status", serde_json::json!("expired")),
+		("status", serde_json::json!("revoked")),
+		("status", serde_json::json!("processing")),
+		("status", serde_json::json!(7)),
+		("authorizations", serde_json::json!("not-a-list")),
+		("challenges", serde_json::json!([{"type": "http-01"}])),
+		("error", serde_json::json!({"type": "urn:ietf:params:acme:error:caa", "detail": "injected object error", "status": 403})),
+		("certificate", serde_json::json!("https://ca0.sim/cert/99999")),
+	]
+	.iter()
+	{
+		v.push(FaultKind::SetField {
+			name: f.to_string(),
+			value: val.clone(),
+		});
+	}
+	for what in ["garbage", "empty", "other_key", "truncated", "not_utf8"].iter() {
+		v.push(FaultKind::CertBody { what: what.to_string() });
+	}
+	v
+}
+
+/// F2: the exhaustive single-fault grid: 4 base plans (kp_reuse x pre-existing pair) x every
+/// request position x every network/CA fault kind; two attempts of the certificate.
+fn f2(index: u64) -> Option<Plan> {
+	let kinds = net_fault_kinds();
+	let g = grid(index, &[4, ALL_POSITIONS.len() as u64, kinds.len() as u64])?;
+	let (class, nth) = ALL_POSITIONS[g[1] as usize];
+	let mut p = grid_base(g[0], 2);
+	p.faults.push(Fault {
+		site: "net".into(),
+		ca: 0,
+		class: class.into(),
+		nth,
+		count: 1,
+		kind: kinds[g[2] as usize].clone(),
+		..Default::default()
+	});
+	p.note = format!("F2 base {} {}#{} x {}", g[0], class, nth, super::super::ca::fault_name(&kinds[g[2] as usize]));
+	Some(p)
+}
+
+const CLASSES: [&str; 13] = [
+	"directory", "newNonce", "newAccount", "newOrder", "authz", "challenge", "authzPoll", "orderPollReady", "finalize", "orderPollValid", "certificate", "account", "keyChange",
+];
+
+/// F3: random multi-fault sequences (1..6 network/CA faults placed inside operations) over 1..4
+/// consecutive attempts, then a fault-free tail.  With and without a pre-existing pair, kp_reuse
+/// on/off, 1..3 identifiers, several key types.
+fn f3(rng: &mut Rng, _index: u64) -> Plan {
+	let mut p = grid_base(rng.below(4), 1);
+	let n_ids = rng.range(1, 3) as usize;
+	let chs = ["http-01", "dns-01", "tls-alpn-01"];
+	p.config.certificates[0].identifiers = (0..n_ids).map(|i| ident(&format!("n{}.f3.sim", i), chs[rng.below(3) as usize])).collect();
+	p.config.certificates[0].key_type = Some(CHEAP_KEY_TYPES[rng.below(5) as usize].to_string());
+	if !p.world.pre_files.is_empty() {
+		p.world.pre_files[0].content = format!("key:{}", p.config.certificates[0].key_type.clone().unwrap());
+	}
+	p.config.accounts[0].key_type = Some(CHEAP_KEY_TYPES[rng.below(5) as usize].to_string());
+	p.sched = default_sched(rng);
+	p.sched.net_us.1 = p.sched.net_us.1.min(80_000);
+	let kinds = net_fault_kinds();
+	let n_faults = rng.range(1, 6);
+	for _ in 0..n_faults {
+		let class = CLASSES[rng.below(11) as usize];
+		p.faults.push(Fault {
+			site: "net".into(),
+			ca: 0,
+			class: class.into(),
+			nth: rng.range(1, 4),
+			count: if rng.chance(1, 4) { rng.range(2, 12) } else { 1 },
+			kind: kinds[rng.below(kinds.len() as u64) as usize].clone(),
+			..Default::default()
+		});
+	}
+	let attempts = rng.range(1, 4) as u32;
+	let tail = 14 + p.faults.iter().map(|f| f.count as u32).sum::<u32>();
+	p.ops = vec![
+		Op::Run { attempts, max_virtual_s: 20_000, only: vec![] },
+		// fault-free tail: long enough for every remaining scripted fault to be consumed or skipped
+		Op::Run { attempts: tail, max_virtual_s: 100_000, only: vec![] },
+	];
+	p
+}
+
+/// F3m: 1..6 certificates sharing one account and one endpoint; any subset fails permanently
+/// (every request of its orders answered with an error, or its challenge hook failing); the others
+/// must be issued.
+fn f3m(rng: &mut Rng, _index: u64) -> Plan {
+	let n = rng.range(1, 6) as usize;
+	let mut p = simple_plan(rng, n);
+	p.sched.net_us.1 = p.sched.net_us.1.min(80_000);
+	let kinds = error_kinds();
+	let mut any_healthy = false;
+	for i in 0..n {
+		let fail = rng.chance(1, 2) && !(i + 1 == n && !any_healthy);
+		if !fail {
+			any_healthy = true;
+			continue;
+		}
+		let class = ["newOrder", "authz", "challenge", "finalize", "certificate", "authzPoll"][rng.below(6) as usize];
+		p.faults.push(Fault {
+			site: "net".into(),
+			ca: 0,
+			class: class.into(),
+			nth: 1,
+			count: 1_000_000_000,
+			cert: Some(i),
+			kind: kinds[rng.below(kinds.len() as u64) as usize].clone(),
+			..Default::default()
+		});
+	}
+	// the healthy ones need one attempt each; the failing ones loop meanwhile
+	let healthy: Vec<usize> = (0..n).filter(|i| !p.faults.iter().any(|f| f.cert == Some(*i))).collect();
+	p.ops = vec![Op::Run { attempts: 1, max_virtual_s: 3_000, only: healthy }];
+	p.sched.max_events = 100_000;
+	p
+}
+
+const PERIODS: [&str; 12] = ["0s", "1s", "90s", "1h", "36h", "1d", "2w", "30d", "45d12h", "100d", "1w2d3h4m5s", "400d"];
+const LIFETIMES: [i64; 12] = [-86400, 0, 60, 3600, 86400, 7 * 86400, 30 * 86400, 90 * 86400, 90 * 86400, 365 * 86400, 3650 * 86400, 398 * 86400];
+
+/// F4: renewal histories over months..years of virtual time: lifetimes, chain lengths and SAN
+/// modes vary per issuance; renew_delay / random_early_renew incl. 0 and values above the lifetime;
+/// restarts with a file removed or the clock stepped; jitter at both ends.
+fn f4(rng: &mut Rng, _index: u64) -> Plan {
+	let n = if rng.chance(1, 4) { 2 } else { 1 };
+	let mut p = simple_plan(rng, n);
+	for (i, c) in p.config.certificates.iter_mut().enumerate() {
+		let k = rng.range(1, 3) as usize;
+		c.identifiers = identifiers(rng, k, 1, &format!("r{}-", i));
+		// challenge types the default CA offers for every identifier kind
+		c.key_type = Some(CHEAP_KEY_TYPES[rng.below(5) as usize].to_string());
+		c.kp_reuse = Some(rng.chance(1, 3));
+		if rng.chance(4, 5) {
+			c.renew_delay = Some(PERIODS[rng.below(PERIODS.len() as u64) as usize].to_string());
+		}
+		if rng.chance(3, 5) {
+			c.random_early_renew = Some(PERIODS[rng.below(PERIODS.len() as u64) as usize].to_string());
+		}
+	}
+	if rng.chance(1, 5) {
+		p.config.global.renew_delay = Some(PERIODS[rng.below(PERIODS.len() as u64) as usize].to_string());
+	}
+	let k = &mut p.cas[0].knobs;
+	k.lifetime_s = (0..rng.range(1, 4)).map(|_| LIFETIMES[rng.below(LIFETIMES.len() as u64) as usize]).collect();
+	k.chain_len = (0..rng.range(1, 4)).map(|_| rng.range(1, 4) as u32).collect();
+	k.san_mode = match rng.below(10) {
+		0 => "permuted".into(),
+		1 => "extra".into(),
+		2 => "drop_last".into(),
+		_ => "as_requested".into(),
+	};
+	k.nonce_on_get = rng.chance(1, 2);
+	p.sched.jitter = ["seeded", "min", "max"][rng.below(3) as usize].to_string();
+	p.sched.net_us.1 = p.sched.net_us.1.min(80_000);
+	let horizon = 4000 * 86400;
+	let mut ops = vec![Op::Run { attempts: rng.range(1, 4) as u32, max_virtual_s: horizon, only: vec![] }];
+	for _ in 0..rng.below(3) {
+		ops.push(Op::Stop);
+		match rng.below(4) {
+			0 => ops.push(Op::RemoveFile { cert: rng.below(n as u64) as usize, which: "crt".into() }),
+			1 => ops.push(Op::RemoveFile { cert: rng.below(n as u64) as usize, which: "pk".into() }),
+			2 => ops.push(Op::Skew { seconds: [-86400 * 40, -3600, 3600, 86400 * 40, 86400 * 400][rng.below(5) as usize] }),
+			_ => {}
+		}
+		ops.push(Op::Run { attempts: rng.range(1, 3) as u32, max_virtual_s: horizon, only: vec![] });
+	}
+	p.ops = ops;
+	p
 }
